@@ -138,40 +138,49 @@ impl ServerState {
   }
 
   pub fn update(&mut self, updates: Vec<(ModuleReference, String)>) {
-    let mut error_set = ErrorSet::new();
+    // Syntax errors are collected per module: when a batch names a module twice, the later text
+    // replaces the earlier one, and its syntax errors with it.
+    let mut syntax_errors = HashMap::new();
     let initial_update_set = updates.iter().map(|(m, _)| *m).collect::<HashSet<_>>();
     for (mod_ref, source_code) in updates {
+      let mut module_error_set = ErrorSet::new();
       let parsed = samlang_parser::parse_source_module_from_text(
         &source_code,
         mod_ref,
         &mut self.heap,
-        &mut error_set,
+        &mut module_error_set,
       );
+      syntax_errors.insert(mod_ref, module_error_set);
       self.global_cx.insert(mod_ref, build_module_signature(mod_ref, &parsed));
       self.string_sources.insert(mod_ref, source_code);
       self.parsed_modules.insert(mod_ref, parsed);
     }
     self.dep_graph = DependencyGraph::new(&self.parsed_modules);
     let recheck_set = self.dep_graph.affected_set(initial_update_set.clone());
-    self.recheck(error_set, &initial_update_set, &recheck_set);
+    self.recheck(merge_error_sets(syntax_errors), &initial_update_set, &recheck_set);
   }
 
   pub fn rename_module(&mut self, renames: Vec<(ModuleReference, ModuleReference)>) {
-    let mut error_set = ErrorSet::new();
+    let mut syntax_errors = HashMap::new();
     let recheck_set = self
       .dep_graph
       .affected_set(renames.iter().flat_map(|(a, b)| vec![*a, *b].into_iter()).collect());
     let mut reparsed = HashSet::new();
     for (old_mod_ref, new_mod_ref) in renames {
       if let Some(source) = self.string_sources.remove(&old_mod_ref) {
+        // The old name may itself be the target of an earlier rename of this batch: it is gone now.
+        reparsed.remove(&old_mod_ref);
+        syntax_errors.remove(&old_mod_ref);
         reparsed.insert(new_mod_ref);
         self.parsed_modules.remove(&old_mod_ref).unwrap();
+        let mut module_error_set = ErrorSet::new();
         let parsed = samlang_parser::parse_source_module_from_text(
           &source,
           new_mod_ref,
           &mut self.heap,
-          &mut error_set,
+          &mut module_error_set,
         );
+        syntax_errors.insert(new_mod_ref, module_error_set);
         // The signature mentions the module's own reference, so it is rebuilt under the new name.
         self.global_cx.remove(&old_mod_ref);
         self.global_cx.insert(new_mod_ref, build_module_signature(new_mod_ref, &parsed));
@@ -181,7 +190,7 @@ impl ServerState {
       self.checked_modules.remove(&old_mod_ref);
     }
     self.dep_graph = DependencyGraph::new(&self.parsed_modules);
-    self.recheck(error_set, &reparsed, &recheck_set);
+    self.recheck(merge_error_sets(syntax_errors), &reparsed, &recheck_set);
   }
 
   pub fn remove(&mut self, module_references: &[ModuleReference]) {
@@ -195,6 +204,15 @@ impl ServerState {
     self.dep_graph = DependencyGraph::new(&self.parsed_modules);
     self.recheck(ErrorSet::new(), &HashSet::new(), &recheck_set);
   }
+}
+
+/// The syntax errors of one round: one set per module parsed in it.
+fn merge_error_sets(sets: HashMap<ModuleReference, ErrorSet>) -> ErrorSet {
+  let mut all = ErrorSet::new();
+  for (_, module_error_set) in sets {
+    all.merge(module_error_set);
+  }
+  all
 }
 
 #[cfg(test)]
